@@ -14,7 +14,14 @@ META = {
                  'semantic.Parse/CompareStr on pairs and triples, with the order laws and the semver.org verdict evaluated on the implementation\'s own answers as oracle',
     'design_ref': 'DESIGN.md §5 C07',
     'text': 'Kernel-checked, for every family (semver-like, NuGet, CRAN, Debian/Ubuntu, RubyGems, Red Hat, Packagist, PyPI, Alpine, Maven) and ALL strings: Parse+CompareStr never '
-            'crashes (incl. Alpine original[0], PyPI pre.letter[0], Maven token indexing and trim loop); an accepted version compares equal to itself; when both are accepted the '
+            'crashes. What that means: for PyPI, Alpine and Maven the models have explicit crash branches (Alpine original[0], PyPI pre.letter[0], Maven token indexing and trim loop); '
+            'for semver-like, NuGet, CRAN, RubyGems, Red Hat, Packagist and Debian the FAMILIES run Go-shaped functions written with failing index/slice primitives (goIndex, goSlice, goFetch; '
+            'none = run-time panic = crash of the family) at every site where the Go code indexes or slices — utilities.go:39 fetch slice[i], version.go components.Fetch, '
+            'version-semver-like.go:43 Components[:max]/[max:], version-semver.go:29 parts[0] and :75 a[i]/b[i], version-rubygems.go:70 segs[i], segs[:max(i,0)], version-redhat.go:120 a[ai] and '
+            'the guarded a[ai] of the trim/tilde/caret tests, version-packagist.go:79-113 a[i], a[len(b)], a[len(b):], version-debian.go:35-85 s[:i], s[i+1:], str[:i], str[i:], char[0] — and '
+            'C07_go_sites_in_range proves that every one of them is in range on every input (each Go-shaped function = some of its index-free reformulation; the guards make the failing branch '
+            'unreachable; the fuel of the Go-shaped Packagist recursion and removeZeros loop is adequate), so C07_<f>_total does real work there (positions are characters, not bytes: the '
+            'separators and digits the code searches for are ASCII). Further: an accepted version compares equal to itself; when both are accepted the '
             'comparison does not fail and a?b is the exact negation of b?a. Transitivity (total preorder, equality an equivalence) is proved on ALL accepted strings for semver-like, '
             'NuGet, CRAN, Debian/Ubuntu, RubyGems, Red Hat (loops shown equal to padded comparison of per-string token lists) and PyPI; for Packagist on versions without the internal '
             '"#" marker (decided counterexample 1.5 = 1.# = 1.7; "#" is not part of the ecosystem grammar); for Alpine on valid versions whose later components have no leading zero '
@@ -35,6 +42,9 @@ META = {
             'candidate, not part of the canonical clause); the Debian/PyPI/NuGet/CRAN readers accept leading zeros because the rules compare values. '
             'NOT DISCHARGED / not formalised: published rules of Packagist, Alpine and Maven; that the readers of the oracle invert render is proved for semver, Debian, RubyGems and CRAN '
             '(C07_semver_specParse_render, C07_spec_readers) and checked on examples only for the NuGet, PyPI and Red Hat readers. '
+            'KNOWN FINDINGS are filed narrowly: only a transitivity verdict, on a triple with a member outside the proved domain (driver flag kf) that ALSO has the recorded shape (Alpine: '
+            'leading zero in a later component; Maven: a qualifier introduced by "."), and only when the implementation answers exactly as the model on that row; every other verdict on such a '
+            'triple is reported as a violation (coverage.known_class_rows counts the filed rows). '
             'Fuel: Debian, Red Hat, Packagist fuel is eliminated in the proofs; Maven trimLoop/walkDown exhaustion is a panic outcome of the model and is excluded by C07_maven_total; '
             'for the Alpine number-prefix / suffix finder and the PyPI legacy splitter / regexp star C07_fuel_adequate shows that any fuel above the argument length gives the same result '
             '(not proved: that the star inside the PEP 440 recogniser is only applied to suffixes of the input in general; on normalised texts C07_pypi_spec covers it).',
@@ -48,7 +58,9 @@ THEOREMS = ([P + 'C07_%s_total' % f for f in FAMS] + [P + 'C07_%s_refl' % f for 
             [P + 'C07_%s_trans' % f for f in ['semver', 'nuget', 'cran', 'debian', 'rubygems', 'redhat', 'pypi']] +
             [P + 'C07_packagist_trans_partial', P + 'C07_packagist_trans_fails', P + 'C07_alpine_trans_partial', P + 'C07_alpine_trans_fails',
              P + 'C07_maven_trans_partial', P + 'C07_maven_trans_fails', P + 'C07_all_total', P + 'C07_all_refl', P + 'C07_all_antisymm', P + 'C07_eco_total', P + 'C07_unsupported',
-             P + 'C07_semver_spec', P + 'C07_debian_spec', P + 'C07_pypi_spec', P + 'C07_rubygems_spec', P + 'C07_nuget_spec', P + 'C07_cran_spec', P + 'C07_redhat_spec', P + 'C07_spec_readers', P + 'C07_semver_hyphen_identifier', P + 'C07_semver_specParse_render', P + 'C07_fuel_adequate', P + 'C07_cran_nonnumeric', P + 'C07_packagist_long_number'])
+             P + 'C07_semver_spec', P + 'C07_debian_spec', P + 'C07_pypi_spec', P + 'C07_rubygems_spec', P + 'C07_nuget_spec', P + 'C07_cran_spec', P + 'C07_redhat_spec', P + 'C07_spec_readers', P + 'C07_semver_hyphen_identifier', P + 'C07_semver_specParse_render', P + 'C07_fuel_adequate', P + 'C07_cran_nonnumeric', P + 'C07_packagist_long_number',
+             P + 'C07_go_sites_in_range', P + 'C07_grammar_accepted', P + 'C07_preorder', P + 'C07_total_preorder_on', P + 'C07_rank_exists', P + 'C07_total_preorder_on_accepted', P + 'C07_maven_no_rank'] +
+            [P + 'C07_%s_render_accepted' % f for f in ['semver', 'nuget', 'cran', 'debian', 'rubygems', 'redhat', 'pypi']])
 
 ECO_FAM = {'npm': 'semver', 'crates.io': 'semver', 'Go': 'semver', 'Hex': 'semver', 'Pub': 'semver', 'ConanCenter': 'semver', 'NuGet': 'nuget', 'CRAN': 'cran',
            'Debian': 'debian', 'Ubuntu': 'debian', 'RubyGems': 'rubygems', 'Red_Hat': 'redhat', 'Packagist': 'packagist', 'PyPI': 'pypi', 'Alpine': 'alpine', 'Maven': 'maven'}
@@ -59,7 +71,7 @@ KNOWN = {'alpine': 'C07/alpine-leading-zero-padding', 'maven': 'C07/maven-qualif
 
 
 def oracle(case, fi, fm):
-    """The order laws evaluated on the IMPLEMENTATION's answers (gv = grammar-valid comes from the spec side)."""
+    """The order laws evaluated on the IMPLEMENTATION's answers (gv = Spec.Semantic.acceptedByCode: accepted by the code's parser, Packagist without '#', Alpine not invalid — a superset of the published grammar, on which transitivity is judged)."""
     t = case.split(' ')
     res = [fi.get(k) for k in ('r', 'rr', 'ra', 'rb', 'ab', 'bc', 'ac', 'ba', 'cb', 'ca') if k in fi]
     if 'panic' in res or fi.get('_') == 'panic':
@@ -292,6 +304,6 @@ def run(ctx):
                     ctx.violation('known finding %s is listed but its witness no longer violates the property on the implementation: the model (which mirrors the defect), '
                                   'the _partial theorems and known_findings.txt must be revisited' % key, ['# corpus/C07 witness of ' + key], found_input=False, name='stale-' + key.split('/')[-1])
     ctx.extra['explanation'] = ('Order laws are proved about the Lean models for all strings; the models are tied to /repo/semantic by the sharded correspondence stream; the oracle re-evaluates '
-                                'reflexivity, antisymmetry, (on grammar-valid triples) transitivity and (on canonical semver pairs) the semver.org §11 verdict on the implementation\'s own answers.')
+                                'reflexivity, antisymmetry, (on triples of strings accepted by the code: gv flag) transitivity and (on canonical semver pairs) the semver.org §11 verdict on the implementation\'s own answers.')
     if not proofs_ok:
         lib.proof_failed(ctx, 'Scalibr.Properties.C07')
